@@ -25,6 +25,7 @@ class C03(core.Prop):
     lean_modules = ['TddaVerif.Props.C03']
     theorems = ['TddaVerif.Props.C03.' + t for t in [
         'matchCap_sound', 'matchCap_complete', 'coarse_sound', 'batch_extract_sound', 'extract_sound',
+        'extract_sampled_sound', 'extract_sampled_terminates', 'extract_sampled_eq_batch',
         'tie_constants', 'tie_general_alnums']]
     quick_n = 500
     thorough_n = 40000
@@ -36,8 +37,12 @@ class C03(core.Prop):
             'non-trivial = >= 2 distinct examples; distinct by content')
     trusted_base = [
         'the Lean model Model/Rexpy.lean + RexpyRender.lean is a hand translation of the batch path of rexpy.Extractor '
-        '(clean, coarse classification, run-length encoding, merging, alignment, refinement, pruning, rendering), tied '
-        'by running both on every generated case that does not sample; the sampling loop is not modelled - the oracle decides it',
+        '(clean, coarse classification, run-length encoding, merging, alignment, refinement, pruning, rendering) and of the '
+        'sampling loop (Model/RexpySampled.lean: first sample, extract / find failures / extend / again, pruning), with '
+        'random.sample as a parameter; tied by running both on every generated case - for cases that sample, the model replays '
+        'the results of the random.sample calls recorded from the very run it is compared with',
+        'PickOK: random.sample returns elements of the list it is given, and at least one when asked for at least one of a '
+        'non-empty list',
         'Consistent T: the character table handed to the model classifies \\w / \\d / \\s as CPython re does (built by calling re on each character)',
         'the theorems are about the pattern AST and the Matches relation of Props/C03Spec.lean; that the rendered text '
         'denotes the same language under CPython re is checked by the oracle on every case, not proved',
